@@ -24,7 +24,7 @@ def event_msg(body: bytes) -> bytes:
 def run_case(case, R):
     ops = case["ops"]
     names = [o[0] for o in ops]
-    R.nt(("drop" in names and "sub" in names) or "offsub" in names or any(o[0] == "burst" and len(o[1]) >= 2 for o in ops) or any(o[0] == "addl" and o[1] == "raising" for o in ops))
+    R.nt((("drop" in names or "pdrop" in names) and "sub" in names) or "offsub" in names or any(o[0] == "burst" and len(o[1]) >= 2 for o in ops) or any(o[0] == "addl" and o[1] == "raising" for o in ops))
     for n in set(names):
         R.cls("op:" + n)
 
@@ -172,6 +172,20 @@ def run_case(case, R):
                     await vtime.settle(loop)
                     if p.is_connected:
                         on_connected_expect()
+                elif name == "pdrop":
+                    # the connection is lost while an encrypted block is only partly received; nothing of it may survive into the next session
+                    c = cur()
+                    if c is None:
+                        continue
+                    wire = c.encrypt(event_msg(json.dumps({"characteristics": [{"aid": 1, "iid": 9, "value": -1}]}).encode()))
+                    c.send_wire(wire[:1 + op[2] % (len(wire) - 1)])
+                    await vtime.settle(loop)
+                    c.close(op[1])
+                    await vtime.settle(loop)
+                    await asyncio.sleep(1)
+                    await vtime.settle(loop)
+                    if p.is_connected:
+                        on_connected_expect()
                 elif name == "burst":
                     c = cur()
                     if c is None:
@@ -244,6 +258,7 @@ OP = st.one_of(
     st.just(["zc"]),
     st.tuples(st.just("adv"), st.sampled_from([0.1, 5, 61])).map(list),
     st.tuples(st.just("offsub"), IDSETS, st.sampled_from([0.5, 5, 30])).map(list),
+    st.tuples(st.just("pdrop"), st.sampled_from(["fin", "reset"]), st.integers(0, 200)).map(list),
 )
 
 
@@ -259,6 +274,9 @@ def enum_fixed(tier):
     for b in bad:
         yield {"ops": [["sub", [[1, 9]]], ["burst", [b, v], []], ["burst", [v, b, v2], [7, 90]], ["burst", [v], []]]}
         yield {"ops": [["addl", "raising"], ["addl", "normal"], ["sub", [[1, 9], [2, 10]]], ["burst", [v, b, v], [3]], ["drop", "fin"], ["burst", [v2], []]]}
+    for how in ("fin", "reset"):
+        for k in (0, 1, 2, 17, 40):
+            yield {"ops": [["sub", [[1, 9], [2, 10]]], ["pdrop", how, k], ["burst", [v], []], ["pdrop", how, k + 3], ["burst", [v2, v], [5]]]}
     for secs in (0.5, 12, 40):
         yield {"ops": [["offsub", [[1, 9], [2, 10]], secs], ["burst", [v2], []], ["drop", "fin"], ["burst", [v], []]]}
         yield {"ops": [["sub", [[1, 9]]], ["offsub", [[2, 10]], secs], ["burst", [v2, v], []]]}
@@ -274,7 +292,7 @@ from props.coap_layers import C12_COAP_LAYERS as _COAP  # noqa: E402
 SPEC = Property(
     P, "exploration",
     rule=("histories of 2..18 operations over {subscribe / unsubscribe overlapping id sets over 2 accessory ids (the accessory may reject "
-          "items), subscribe cut by a FIN/reset (polling fallback), subscribe while the accessory is unreachable followed by its return, add normal/raising listener, remove listener, peer FIN/reset followed by "
+          "items), subscribe cut by a FIN/reset (polling fallback), subscribe while the accessory is unreachable followed by its return, add normal/raising listener, remove listener, peer FIN/reset (also in the middle of an encrypted block) followed by "
           "reconnection, event burst of 1..4 EVENT messages in one read or split across reads (valid with 1..3 characteristics, empty, "
           "non-JSON text, non-UTF-8 bytes) under generated frame sizes, zeroconf update, advance time}; model = wanted set, listener set, "
           "polling-fallback flag. CoAP: 1..4 event notifications of 1..4 records each (instance ids may repeat inside one notification) to 1..3 listeners. Non-trivial: a reconnect while something is subscribed, a burst of >=2 messages, or a raising listener."),
